@@ -1031,11 +1031,11 @@ func (m *managed) serve(kind string, rtx walletdb.ReadTx) error {
 	st := newTxState(kind, rtx)
 	m.lastSt = st
 	finish := func() error {
+		if !st.closed {
+			m.inside, _ = dumpString(rtx)
+		}
 		switch m.outcome {
 		case "ok":
-			if !st.closed {
-				m.inside, _ = dumpString(rtx)
-			}
 			return nil
 		case "err":
 			return errUser
@@ -1265,6 +1265,10 @@ func (r *runner) Exec(op string) (string, string) {
 				}
 			}
 		}
+		if f[1] != "ok" && res == "res:ok" && writable && !st.committed && m.inside != r.before && after != m.inside {
+			vio("nil-return-without-commit", kind+" answered nil for a closure that ended with "+f[1]+
+				" although its writes are not in the database")
+		}
 		if f[1] == "err" && res != "res:err:user" {
 			vio("error-not-returned", "closure error was not handed back: "+res)
 		}
@@ -1318,6 +1322,137 @@ func (r *runner) Exec(op string) (string, string) {
 			vio("oncommit-fired-without-commit", "OnCommit handlers ran although nothing was committed")
 		}
 		return out(fmt.Sprintf("ok fired=%d", st.fired))
+	case "cbatch":
+		if len(f) != 3 {
+			return out("bad-op")
+		}
+		p, ok := parsePath(f[1])
+		if !ok || len(p) == 0 {
+			return out("bad-op")
+		}
+		type call struct {
+			k, v []byte
+			o    string
+		}
+		var calls []call
+		for _, c := range strings.Split(f[2], ",") {
+			q := strings.Split(c, ":")
+			if len(q) != 3 || (q[2] != "ok" && q[2] != "err" && q[2] != "panic") {
+				return out("bad-op")
+			}
+			k, ok1 := parseBytes(q[0])
+			v, ok2 := parseBytes(q[1])
+			if !ok1 || !ok2 {
+				return out("bad-op")
+			}
+			calls = append(calls, call{k, v, q[2]})
+		}
+		if r.mg != nil || r.st != nil {
+			return out("busy")
+		}
+		resolveRO := func(tx walletdb.ReadTx) walletdb.ReadBucket {
+			b := tx.ReadBucket(p[0])
+			for _, n := range p[1:] {
+				if b == nil {
+					return nil
+				}
+				b = b.NestedReadBucket(n)
+			}
+			return b
+		}
+		read := func() []string {
+			vals := make([]string, len(calls))
+			_ = walletdb.View(r.db, func(tx walletdb.ReadTx) error {
+				b := resolveRO(tx)
+				for i, c := range calls {
+					if b == nil {
+						vals[i] = "nobucket"
+					} else {
+						vals[i] = showVal(b.Get(c.k))
+					}
+				}
+				return nil
+			})
+			return vals
+		}
+		beforeVals := read()
+		results := make([]string, len(calls))
+		doneCh := make(chan int, len(calls))
+		launch := func(i int) {
+			c := calls[i]
+			go func() {
+				defer func() {
+					if pv := recover(); pv != nil {
+						results[i] = "panic"
+						if _, ok := pv.(panicToken); !ok {
+							results[i] = fmt.Sprintf("panic:unexpected:%v", pv)
+						}
+					}
+					doneCh <- i
+				}()
+				err := walletdb.Batch(r.db, func(tx walletdb.ReadWriteTx) error {
+					b := tx.ReadWriteBucket(p[0])
+					for _, n := range p[1:] {
+						if b == nil {
+							return errUser
+						}
+						b = b.NestedReadWriteBucket(n)
+					}
+					if b == nil {
+						return errUser
+					}
+					if err := b.Put(c.k, c.v); err != nil {
+						return err
+					}
+					switch c.o {
+					case "ok":
+						return nil
+					case "err":
+						return errUser
+					}
+					panic(panicToken{})
+				})
+				results[i] = errName(err)
+			}()
+		}
+		// well-behaved callers enter the batch first, the failing ones join it inside bbolt's 10 ms window
+		n := 0
+		for i, c := range calls {
+			if c.o == "ok" {
+				launch(i)
+				n++
+			}
+		}
+		time.Sleep(2 * time.Millisecond)
+		for i, c := range calls {
+			if c.o != "ok" {
+				launch(i)
+				n++
+			}
+		}
+		for ; n > 0; n-- {
+			select {
+			case <-doneCh:
+			case <-time.After(opTimeout):
+				r.wedge()
+				vio("db-unusable", "concurrent Batch callers did not finish within the time limit")
+				return out("timeout")
+			}
+		}
+		afterVals := read()
+		for i, c := range calls {
+			if results[i] == "ok" {
+				if afterVals[i] != showVal(c.v) {
+					vio("batch-nil-return-write-lost", "Batch answered nil but the caller's write is not visible to a later transaction")
+				}
+			} else if afterVals[i] != beforeVals[i] {
+				vio("batch-failed-write-visible", "Batch answered "+results[i]+" but the caller's write is visible afterwards")
+			}
+			if c.o == "err" && !strings.HasPrefix(results[i], "err:") {
+				vio("error-not-returned", "Batch did not hand back the closure's error: "+results[i])
+			}
+		}
+		return out("cb:" + strings.Join(results, ","))
 	case "reopen":
 		if len(f) != 1 {
 			return out("bad-op")
